@@ -5,6 +5,7 @@ import (
 	"encoding/json"
 	"fmt"
 	"math/big"
+	"os"
 	"testing"
 
 	"com.tuntun.rangers/node/src/consensus/base"
@@ -26,6 +27,11 @@ func TestMain(m *testing.M) {
 		"taken from the implementation as scheme parameters); BLS uniqueness: for pk = sk*g2 the only G1 element s with e(s,g2)=e(H(m),pk) is sk*H(m)")
 	stats.Assume("public keys: the statement fixes the key as a group element, so a non-canonical byte string that denotes the SAME element (pk||junk, coordinate+p) is " +
 		"recorded (classes pk_noncanonical_same_element:*) but not asserted; every byte string that denotes a different element or none must not verify")
+	if initErr != "" { // scheme parameters do not match the reference: nothing below would be meaningful
+		fmt.Printf("--- FAIL: TestReferenceParameters (0.00s)\n    c14_test.go:1: %s\nFAIL\n", initErr)
+		stats.Flush("C14")
+		os.Exit(1)
+	}
 	stats.Main(m, "C14")
 }
 
@@ -45,13 +51,17 @@ var (
 	zero128 = make([]byte, 128)
 )
 
+var initErr string
+
 func init() {
 	if p.Cmp(bn.P) != 0 || order.Cmp(bn.Order) != 0 {
-		panic("reference curve parameters differ from bn256.P / bn256.Order")
+		initErr = "reference curve parameters differ from bn256.P / bn256.Order"
+		return
 	}
 	pt, cls := ref.G2DecodeStrict(g2genB)
 	if cls != ref.EncPoint || !ref.G2InSubgroup(pt) {
-		panic("implementation's G2 generator is not a point of order n on the reference twist: " + cls)
+		initErr = fmt.Sprintf("G2 generator as marshalled by the implementation (%x) is not a point of order n on the reference twist: %s", g2genB, cls)
+		return
 	}
 	g2gen = pt
 }
